@@ -131,7 +131,12 @@ def decision_rules(fb, ctx):
     h = fb.hir_of(b)
     t = strip(hirq.tail(h["body"]))
     where = f"{b['file']}:{t.get('ln', b['line']) if isinstance(t, dict) else b['line']}"
-    if decision_by_evaluation(ctx, h, t, where):
+    # for the evaluation keep the statements of the final expression (an inlined helper is a block with `let`s): only strip blocks
+    # that have no statement
+    t_eval = h["body"].get("expr") if isinstance(h["body"], dict) and h["body"].get("k") == "block" else t
+    while isinstance(t_eval, dict) and t_eval.get("k") == "block" and not t_eval.get("stmts") and t_eval.get("expr") is not None:
+        t_eval = t_eval["expr"]
+    if t_eval is not None and decision_by_evaluation(ctx, h, t_eval, where):
         policy_loop_rules(fb, ctx, b, h, where)
         return
     if not (isinstance(t, dict) and t.get("k") == "match" and strip(t["scrut"]).get("k") == "tup"):
@@ -193,13 +198,20 @@ def decision_by_evaluation(ctx, h, t, where):
     if errs_id is None:
         return False
     pol_id = [i for i in fl if i != errs_id][0]
-    results = {}
-    try:
-        for pname, pval in (("None", absint.C("None")), ("Some/Ok", absint.C("Some", absint.C("Ok", absint.sym("i")))), ("Some/Err", absint.C("Some", absint.C("Err", absint.sym("i"))))):
-            for empty in (True, False):
-                it = absint.Interp(hooks={"is_empty": lambda interp, recv, args, e_=empty: e_ if recv == absint.sym("errors") else NotImplemented})
-                results[(pname, str(empty))] = it.run(t, {pol_id: pval, errs_id: absint.sym("errors")})
-    except absint.Unknown:
+    results = None
+    # the matched policy is encoded as Option<Result<usize, usize>> (Ok = allow) today; a private enum with Allow / Deny variants is
+    # the same information
+    for allow_c, deny_c in (("Ok", "Err"), ("Allow", "Deny")):
+        results = {}
+        try:
+            for pname, pval in (("None", absint.C("None")), ("Some/Ok", absint.C("Some", absint.C(allow_c, absint.sym("i")))), ("Some/Err", absint.C("Some", absint.C(deny_c, absint.sym("i"))))):
+                for empty in (True, False):
+                    it = absint.Interp(hooks={"is_empty": lambda interp, recv, args, e_=empty: e_ if recv == absint.sym("errors") else NotImplemented})
+                    results[(pname, str(empty))] = it.run(t, {pol_id: pval, errs_id: absint.sym("errors")})
+            break
+        except absint.Unknown:
+            results = None
+    if results is None:
         return False
     def kind(v):
         if absint.tag(v) == "Ok":
@@ -258,7 +270,7 @@ def policy_loop_rules(fb, ctx, b, h, where):
                     it.run(st_ if st_.get("k") != "semi" else st_["e"], env_)
                     got_[kind_] = [absint.show(v_) for v_ in it.assigned.values()]
                 idxs = [nm_ for nm_ in absint.free_locals(st_).values()]
-                kind_ok = any(got_["Allow"] == [f"Some(Ok(<{n_}>))"] and got_["Deny"] == [f"Some(Err(<{n_}>))"] for n_ in idxs)
+                kind_ok = any((got_["Allow"] == [f"Some(Ok(<{n_}>))"] and got_["Deny"] == [f"Some(Err(<{n_}>))"]) or (got_["Allow"] == [f"Some(Allow(<{n_}>))"] and got_["Deny"] == [f"Some(Deny(<{n_}>))"]) for n_ in idxs)
                 tab = got_
             except absint.Unknown:
                 pass
